@@ -6,11 +6,12 @@ func init() {
 		Explain: "Decides a structural sufficient condition for injectivity of the hash input plus field coverage, for all pairs of values at once: " +
 			"(H1) every field of Trip/TripID/StopTimeUpdate/StopTimeEvent (for vehicles: Vehicle/VehicleID/Position and the trip) reaches an encoder call, and the excluded fields (Trip.Vehicle, IsEntityInMessage) are never read by the hasher; " +
 			"(H2) the encoder matches the field's type (string -> length-prefixed string, *T -> presence-prefixed encoder, time -> Unix seconds so zone presentation is ignored, slice -> length then every element by a range loop, pointer-to-struct -> presence flag then fields); " +
-			"(H2) also: what is handed to an encoder is computed for the element at hand -- a variable that can keep its value from a previous trip around a loop is not accepted as a source; (H3) the primitives are self-delimiting (length before bytes, presence flag on every path, value only on the non-nil edge); " +
+			"(H2) also: what is handed to an encoder is computed for the element at hand -- a variable that can keep its value from a previous trip around a loop is not accepted as a source; (SCAN) no loop of the hasher that encodes something per element is left by a break (a `break` for a `continue` after a missing arrival skips the departure); (H3) the primitives are self-delimiting (length before bytes, presence flag on every path, value only on the non-nil edge); " +
 			"(H4) flush discipline (direct hash writes only in flush/string, flush between buffered length and direct write, final flush); (G15) every value reaching binary.Write has a fixed size; determinism via no map range / clock in the hasher. " +
 			"Not decided: encoding/binary and the hash function themselves.",
 		Assumptions: []string{"hash.Hash implementations consume Write calls as a byte stream"},
 		Rules: []Rule{
+			{Name: "SCAN", Doc: "a loop that does something for each element is not left early (no break out of a processing loop)", MinInstances: 1, Run: func(c *Ctx) { runFullScan(c, hashFns(c), "SCAN") }},
 			{Name: "H", Doc: "hash coverage and encoding discipline (H1-H4, G15)", MinInstances: 28, Run: runHash},
 			{Name: "G6", Doc: "no map range in the hasher", Run: func(c *Ctx) {
 				fns, _ := c.scope(c.anchors("gtfs:(*Trip).Hash", "gtfs:(*Vehicle).Hash"), scopeOpts{})
